@@ -37,14 +37,16 @@ var Packages = []string{"internal/multiplex", "internal/server", "internal/serve
 var Programs = map[string]string{"cmd/ck-client": "internal/verifmain/ckclient", "cmd/ck-server": "internal/verifmain/ckserver"}
 
 type Stats struct {
-	Files     int
-	Yields    int
-	GoStmts   int
-	MapRanges int
-	Timers    int
-	TypeSeams int
+	Files        int
+	Yields       int
+	GoStmts      int
+	MapRanges    int
+	Timers       int
+	TypeSeams    int
 	ProgramHooks int
-	TxCallbacks int
+	TxCallbacks  int
+	// Reinits: package-level variables re-initialised at the start of every run
+	Reinits int
 	// RangesUnknown lists range statements whose operand type could not be
 	// resolved (possible un-rewritten map iteration).
 	RangesUnknown []string
@@ -323,6 +325,43 @@ func (in *inst) file(f *ast.File) {
 			in.block(fd.Body)
 		}
 	}
+	// 2b. package-level variables whose initialiser calls something (make,
+	//     errors.New, a constructor) are initialised again at the start of every
+	//     simulated run, inside the bubble: each run starts from a fresh process
+	//     image, and channels, timers and pools created this way belong to the
+	//     bubble (a goroutine blocked on a channel made outside it is not durably
+	//     blocked for testing/synctest, and the simulation would stall)
+	var reinit []ast.Stmt
+	for _, d := range f.Decls {
+		gd, ok := d.(*ast.GenDecl)
+		if !ok || gd.Tok != token.VAR {
+			continue
+		}
+		for _, sp := range gd.Specs {
+			vs, ok := sp.(*ast.ValueSpec)
+			if !ok || len(vs.Values) != len(vs.Names) {
+				continue
+			}
+			for i, name := range vs.Names {
+				if name.Name == "_" || !containsCall(vs.Values[i]) {
+					continue
+				}
+				reinit = append(reinit, &ast.AssignStmt{Lhs: []ast.Expr{ast.NewIdent(name.Name)}, Tok: token.ASSIGN, Rhs: []ast.Expr{vs.Values[i]}})
+				in.st.Reinits++
+			}
+		}
+	}
+	if len(reinit) > 0 {
+		fname := "verifReinit_" + strings.Map(func(r rune) rune {
+			if r >= 'a' && r <= 'z' || r >= 'A' && r <= 'Z' || r >= '0' && r <= '9' {
+				return r
+			}
+			return '_'
+		}, filepath.Base(in.rel))
+		f.Decls = append(f.Decls, &ast.FuncDecl{Name: ast.NewIdent(fname), Type: &ast.FuncType{Params: &ast.FieldList{}}, Body: &ast.BlockStmt{List: reinit}})
+		reg := &ast.ExprStmt{X: &ast.CallExpr{Fun: sel("simsync", "RegisterReinit"), Args: []ast.Expr{ast.NewIdent(fname)}}}
+		f.Decls = append(f.Decls, &ast.FuncDecl{Name: ast.NewIdent("init"), Type: &ast.FuncType{Params: &ast.FieldList{}}, Body: &ast.BlockStmt{List: []ast.Stmt{reg}}})
+	}
 	// 3. imports: add simsync, keep sync/time alive
 	spec := &ast.ImportSpec{Path: &ast.BasicLit{Kind: token.STRING, Value: fmt.Sprintf("%q", SimsyncImport)}}
 	f.Decls = append([]ast.Decl{&ast.GenDecl{Tok: token.IMPORT, Specs: []ast.Spec{spec}}}, f.Decls...)
@@ -351,6 +390,21 @@ func (in *inst) file(f *ast.File) {
 		}
 	}
 	f.Comments = keepc
+}
+
+// containsCall: does the expression call anything (function literals' bodies do not count)?
+func containsCall(e ast.Expr) bool {
+	found := false
+	ast.Inspect(e, func(n ast.Node) bool {
+		switch n.(type) {
+		case *ast.FuncLit:
+			return false
+		case *ast.CallExpr:
+			found = true
+		}
+		return !found
+	})
+	return found
 }
 
 func (in *inst) block(b *ast.BlockStmt) {
